@@ -15,6 +15,7 @@ from .. import docmodel
 from ..core import Prop, Result
 from ..curvemachine import CurveMachine, gen_curve_ops, NAMES_PLAIN
 from ..simfs import SimFS, Policy
+from .c19 import corpus_files, CORPUS_DIR
 
 FMTS = ["%.5f", "%.2f", "%.3f", "%.1f", "%.4e", "%10.4f", "%.8f"]
 WKWS = [
@@ -52,6 +53,10 @@ def allowed_diff(before, after, wrap_given, las_before_values):
                 bad.append("~%s text changed" % name)
             continue
         ib, ia = sb[1], sa[1]
+        if name == "Version" and wrap_given:
+            # the WRAP item is replaced - or added when the object had none - when wrap= is given (documented)
+            ib = [x for x in ib if str(x["orig"]).upper() != "WRAP"]
+            ia = [x for x in ia if str(x["orig"]).upper() != "WRAP"]
         if len(ib) != len(ia):
             bad.append("~%s has %d items, had %d" % (name, len(ia), len(ib)))
             continue
@@ -142,7 +147,7 @@ class C16(Prop):
         "the written index is parsed from the output text independently of lasio's data reader",
         "index values are finite, |x| < 1e7",
     ]
-    quick = {"runs": 70000, "wall": 60}
+    quick = {"runs": 40000, "wall": 60}
     thorough = {"runs": 200000, "wall": 900}
 
     # ------------------------------------------------------------------------------------------------------
@@ -151,7 +156,10 @@ class C16(Prop):
         rows = g.choice([1, 2, 3, 5, 8])
         ikind = g.choice(["inc", "dec", "irr"])
         r = g.random()
-        if r < 0.35:
+        if r < 0.06:
+            base = {"kind": "corpus", "file": g.choice(corpus_files()), "rows": rows, "case": g.choice(["upper", "preserve"]),
+                    "engine": g.choice(["numpy", "normal"])}
+        elif r < 0.38:
             base = {"kind": "scratch", "ncurves": g.randint(0, 4), "rows": rows, "ikind": ikind,
                     "unit0": g.choice(UNIT_POOL), "nan": g.random() < 0.4}
         else:
@@ -160,7 +168,16 @@ class C16(Prop):
                     "vers": g.choice([1.2, 2.0]), "case": g.choice(["upper", "preserve", "lower"]),
                     "engine": g.choice(["numpy", "normal"]), "wrapped": g.random() < 0.2}
         edits = []
-        if base["kind"] == "read" and g.random() < 0.7 or base["kind"] == "scratch" and g.random() < 0.3:
+        if base["kind"] == "corpus":
+            for _ in range(g.randint(0, 2)):
+                q = g.random()
+                if q < 0.4:
+                    edits.append(["index_inplace", g.randrange(8), g.choice([0.25, -0.5, 1.0])])
+                elif q < 0.7:
+                    edits.append(["well_item", g.choice(["ELEV", "KB", ""]), g.choice(["M", "", "FT"]), g.choice(["", None, 0, 12.5, "x"])])
+                else:
+                    edits.append(["other_inplace", g.randrange(8), g.randrange(8)])
+        elif base["kind"] == "read" and g.random() < 0.7 or base["kind"] == "scratch" and g.random() < 0.3:
             for _ in range(g.randint(1, 4)):
                 q = g.random()
                 if q < 0.3:
@@ -213,6 +230,14 @@ class C16(Prop):
         b = sc["base"]
         rows = b["rows"]
         trigger = False
+        if b["kind"] == "corpus":
+            import os
+            las = lasio.read(os.path.join(CORPUS_DIR, b["file"]), engine=b["engine"], mnemonic_case=b["case"])
+            try:
+                trigger = bool(len(las.curves)) and bool(las.index_initial[-1] != las.well.STOP.value)
+            except Exception:
+                trigger = True
+            return las, trigger
         if b["kind"] == "scratch":
             las = lasio.LASFile()
             for j in range(b["ncurves"]):
@@ -260,7 +285,7 @@ class C16(Prop):
             k = e[0]
             res.count("edit:" + k)
             if k == "index_inplace":
-                if len(las.curves) and len(las.index):
+                if len(las.curves) and len(las.index) and np.asarray(las.index).dtype.kind == "f":
                     las.index[e[1] % len(las.index)] += e[2]
                     changed = True
             elif k == "index_rebind":
@@ -494,6 +519,8 @@ class C16(Prop):
                 d["writes"][i]["channel"] = "stringio"
                 yield d
         b = sc["base"]
+        if b["kind"] == "corpus":
+            return
         for k, v in (("ncurves", 1), ("ncurves", 2), ("rows", 2), ("rows", 3), ("case", "upper"), ("wrapped", False),
                      ("engine", "normal"), ("stop", "ok"), ("nan", False)):
             if k in b and b[k] != v and not (isinstance(v, int) and not isinstance(v, bool) and b[k] < v):
